@@ -254,7 +254,7 @@ META = {
                 "Complete) as they stand in the source now yields, on every field the server acts on, the client's "
                 "value up to two stated normalisations (bandwidth text re-parse, empty mode = client). Accepted "
                 "domain configurations lie outside the subdomain host for lower-case names; for mixed case the "
-                "negation is proved (known finding C18-domain-case) together with the theorem for the repaired check. "
+                "negation is proved (finding C18-domain-case, repaired by 4587203) together with the theorem for the repaired check. "
                 "Every documented flag is registered with the documented shorthand, bound field, kind and default; "
                 "names, shorthands and bound fields are unique on every command; every field MarshalToMsg sends has "
                 "its documented flag bound to it or no flag at all; flag defaults equal file defaults except four "
